@@ -7,6 +7,7 @@ import Mathlib.Tactic.Linarith
 import Mathlib.Tactic.SplitIfs
 import Resvg.Render.Export
 import Resvg.Lemmas.Transform
+import Resvg.Props.C12
 
 namespace Resvg.Props.C19
 open Resvg Resvg.Geom Resvg.Render Resvg.Lemmas
@@ -118,5 +119,47 @@ end
     that id — for every tree shape and depth. -/
 theorem C19_node_by_id_iff_carried (id : String) (tree : IdNodes) :
     (findById id tree 0).isSome = carriesL id tree := findById_list id tree 0
+
+/-! ### exporting an image node
+
+`render_node` shifts by the origin of the node's absolute box.  For an image that box is the image's own
+rect under its absolute transform (C12, fix 5463222): the image's corner lands on the canvas origin.  With the
+former box (the element rect under the same transform) the export was shifted off the canvas. -/
+
+/-- the box of `0 0 w h` under a positive scale-and-translate starts at the translation -/
+theorem scaled_box_origin (sx sy tx ty w h : Rat) (hsx : 0 < sx) (hsy : 0 < sy) (hw : 0 < w) (hh : 0 < h) :
+    ((LTRB.fromXywh 0 0 w h).transform ⟨sx, 0, 0, sy, tx, ty⟩).l = tx ∧
+    ((LTRB.fromXywh 0 0 w h).transform ⟨sx, 0, 0, sy, tx, ty⟩).t = ty := by
+  have hxw : 0 < w * sx := mul_pos hw hsx
+  have hyh : 0 < h * sy := mul_pos hh hsy
+  unfold LTRB.transform
+  split_ifs with hid
+  · obtain ⟨_, _, _, _, e5, e6⟩ := (isIdentity_iff _).mp hid
+    simp only at e5 e6
+    simp [LTRB.fromXywh, e5, e6]
+  · simp only [mapPoint_eq, act, LTRB.fromXywh, Flt.rat_add, Flt.rat_min]
+    simp only [zero_mul, mul_zero, add_zero, zero_add]
+    constructor <;> split_ifs <;> linarith
+
+open Resvg.Props.C12 in
+/-- an image of `w x h` shown at `vx vy` with size `vw x vh` under an identity parent: its corner `(0,0)`
+    is exported to `(0,0)` -/
+theorem C19_image_export_origin (w h vx vy vw vh : Rat) (hw : 0 < w) (hh : 0 < h) (hvw : 0 < vw) (hvh : 0 < vh) :
+    act (exportTransform ⟨1, 0, 0, 1, 0, 0⟩ (imageAbsBox w h (imageTs w h vx vy vw vh)).l
+      (imageAbsBox w h (imageTs w h vx vy vw vh)).t (imageTs w h vx vy vw vh)) (0, 0) = (0, 0) := by
+  have hx : 0 < vw / w := div_pos hvw hw
+  have hy : 0 < vh / h := div_pos hvh hh
+  obtain ⟨hl, ht⟩ := scaled_box_origin (vw / w) (vh / h) vx vy w h hx hy hw hh
+  unfold imageAbsBox imageTs
+  rw [hl, ht]
+  unfold exportTransform
+  simp only [Transform.preConcat, concat_eq, act_mulT, act_preTranslate]
+  simp [act]
+
+/-- the recorded witness with the former box: the corner of the 2x2 image shown at 56,64 is exported to
+    (-1148, -992), far outside any canvas -/
+theorem C19_old_image_export_off_canvas :
+    act (exportTransform ⟨1, 0, 0, 1, 0, 0⟩ 1204 1056 (Resvg.Props.C12.imageTs 2 2 56 64 41 31)) (0, 0) = (-1148, -992) := by
+  decide +kernel
 
 end Resvg.Props.C19
